@@ -142,6 +142,7 @@ func runC03() {
 	if run.Thorough() {
 		nShapes = 700
 	}
+	nShapes = scaled(nShapes)
 	for n := 0; n < nShapes; n++ {
 		r := rnd.Fork()
 		s := genShape(r)
